@@ -2,12 +2,13 @@
 from circuit_common import *
 PROP = "C09"
 RULE = ("half-open bursts (open the breaker, wait, then many callers polled in random order with trial completions, cancellations and panics interleaved), "
-        "both window types, permitted 1..3 + random concurrent scripts; non-trivial = the breaker left Closed at least once")
+        "both window types, permitted 1..3 + multi-phase bursts (trials of an earlier half-open phase still in flight across re-open and the next half-open phase, then cancelled/completed, then more callers) + random concurrent scripts; non-trivial = the breaker left Closed at least once")
 
 
 def generate(rng, tier):
     k = 1 if tier == "quick" else 12
-    return [half_open_burst(rng) for _ in range(1200 * k)] + [random_concurrent(rng) for _ in range(600 * k)]
+    return ([half_open_burst(rng) for _ in range(1000 * k)] + [multi_phase_burst(rng) for _ in range(500 * k)]
+            + [random_concurrent(rng) for _ in range(500 * k)])
 
 
 def monitor(s, t):
